@@ -19,8 +19,10 @@ THEOREMS = ["Okane.Golden.C20_env", "Okane.Golden.C20_compare", "Okane.Golden.C2
             "Okane.Golden.C20_missing", "Okane.Golden.C20_update", "Okane.Golden.C20_update_missing",
             "Okane.Golden.crlfToLf_no_crlf_id"]
 
-FILES = [None, b"", b"abc\n", b"abc\r\ndef\r\n", b"a\r\nb\nc\r", b"abc", "日本語\nñ\n".encode(), b"\r\n\r\n", b"\r\r\n", b"\xff\xfe\x00\xc3"]
-GOTS = ["", "abc\n", "abc\ndef\n", "abc\r\ndef\r\n", "a\nb\nc\r", "abc", "日本語\nñ\n", "\n\n", "abc\n\n", "abd\n", "\r\n", " abc\n"]
+FILES = [None, b"", b"abc\n", b"abc\r\ndef\r\n", b"a\r\nb\nc\r", b"abc", "日本語\nñ\n".encode(), b"\r\n\r\n", b"\r\r\n", b"\xff\xfe\x00\xc3",
+         # mixed line ends: LF first, CRLF later (and the other way round)
+         b"a\nb\r\n", b"\nab\r\n", b"a\nb\r\nc\nd\r\n"]
+GOTS = ["", "abc\n", "abc\ndef\n", "abc\r\ndef\r\n", "a\nb\nc\r", "abc", "日本語\nñ\n", "\n\n", "abc\n\n", "abd\n", "\r\n", " abc\n", "a\nb\n", "a\nb\r\n", "\nab\n", "a\nb\nc\nd\n"]
 ENVS = ["u", "s:~", "s:1", "s:0", "i", "s:" + enc("yes please")]
 
 
@@ -79,7 +81,7 @@ def oracle(f, env1, env2, got, rec):
 
 def run(chk):
     chk.rule = ("full cross product of golden-file states x `got` strings x UPDATE_GOLDEN states at Golden::new and at "
-                "assert time (+ random byte strings in the thorough tier); a case is non-trivial when the file exists or "
+                "assert time (+ random strings over {a, b, CR, LF, CRLF, e-acute, blank}: 600 quick, 5000 thorough); a case is non-trivial when the file exists or "
                 "UPDATE_GOLDEN is set; distinct = distinct (file, env, env, got) tuples")
     chk.assumptions = ["std::fs::write succeeds; UTF-8 decoding and the environment are the OS/std library's (not modelled)"]
     if not standard_prologue(chk, THEOREMS):
@@ -89,9 +91,9 @@ def run(chk):
         if e1 != e2 and chk.tier == "quick" and (i % 4):
             continue
         cases.append((f, e1, e2, g))
-    if chk.tier == "thorough":
+    if True:
         alphabet = ["a", "b", "\r", "\n", "\r\n", "é", " "]
-        for _ in range(5000):
+        for _ in range(5000 if chk.tier == "thorough" else 600):
             s = "".join(chk.rng.choice(alphabet) for _ in range(chk.rng.randint(0, 8)))
             t = s if chk.rng.random() < 0.5 else s.replace("\r\n", "\n")
             if chk.rng.random() < 0.2:
